@@ -275,6 +275,28 @@ var corpus = []prog{
 		i := vs.Select(x, y)
 		note("case", i, y.V)
 	}, "no-deadlock"},
+	{"try-acquire-select-send-default", func() {
+		tok := vs.NewChan[int](1)
+		res := vs.NewChan[string](2)
+		for i := 0; i < 2; i++ {
+			i := i
+			vs.Go(func() {
+				sc := vs.SendCase(tok, i)
+				if vs.SelectDefault(sc) == 0 {
+					vs.Event(fmt.Sprint("got", i))
+					tok.Recv()
+					res.Send(fmt.Sprint(i, "+"))
+				} else {
+					res.Send(fmt.Sprint(i, "-"))
+				}
+			})
+		}
+		a, b := res.Recv(), res.Recv()
+		if a > b {
+			a, b = b, a
+		}
+		note(a, b)
+	}, "no-deadlock"},
 	{"lost-wakeup-deadlock", func() {
 		// receiver waits for a message that is only sent if a flag was seen: deadlock in some schedules
 		c := vs.NewChan[int](0)
@@ -294,6 +316,8 @@ var corpus = []prog{
 
 type result struct {
 	Name          string  `json:"name"`
+	PlainExecs    int     `json:"plain_execs"`
+	PlainClosed   bool    `json:"plain_closed"`
 	NaiveExecs    int     `json:"naive_execs"`
 	NaiveOutcomes int     `json:"naive_outcomes"`
 	DporExecs     int     `json:"dpor_execs"`
@@ -314,6 +338,8 @@ func key(s *vs.Sched) string {
 
 func main() {
 	only := flag.String("only", "", "run one program")
+	plainBudget := flag.Int("plain", 8, "seconds of plain (unpruned) enumeration per program")
+	debug := flag.Bool("debug", false, "print explored schedules")
 	out := flag.String("out", "", "write JSON results here")
 	flag.Parse()
 	vs.EventsDependent = true
@@ -326,10 +352,34 @@ func main() {
 		t0 := time.Now()
 		truth := map[string]int{}
 		st1 := vs.ExploreNaive(nil, p.body, func(s *vs.Sched) bool { truth[key(s)]++; return true }, true, -1, time.Now().Add(60*time.Second))
+		// the pruning of the reference explorer is itself checked against plain enumeration
+		// wherever plain enumeration finishes within its budget
+		plain := map[string]int{}
+		vs.HistHash = false
+		st0 := vs.ExploreNaive(nil, p.body, func(s *vs.Sched) bool { plain[key(s)]++; return true }, false, -1, time.Now().Add(time.Duration(*plainBudget)*time.Second))
+		cacheOK := true
+		if st0.Closed {
+			for k := range plain {
+				if truth[k] == 0 {
+					cacheOK = false
+					fmt.Println("    REFERENCE-CACHE UNSOUND, missed:", k)
+				}
+			}
+			truth = plain
+		}
 		got := map[string]int{}
-		st2 := vs.ExploreDPOR(nil, p.body, func(s *vs.Sched) bool { got[key(s)]++; return true }, time.Now().Add(60*time.Second))
+		vs.DebugRaceAll = *debug
+		st2 := vs.ExploreDPOR(nil, p.body, func(s *vs.Sched) bool {
+			if *debug {
+				fmt.Println("  DPOR exec:", s.ScheduleString(0), "=>", key(s))
+			}
+			got[key(s)]++
+			return true
+		}, time.Now().Add(60*time.Second))
 		r := result{Name: p.name, NaiveExecs: st1.Execs, NaiveOutcomes: len(truth), DporExecs: st2.Execs, DporBlocked: st2.SleepBlocked, DporOutcomes: len(got)}
-		r.Agree = st1.Closed && st2.Closed
+		r.Agree = st1.Closed && st2.Closed && cacheOK
+		r.PlainExecs = st0.Execs
+		r.PlainClosed = st0.Closed
 		for k := range truth {
 			if strings.HasPrefix(k, "deadlock") {
 				r.Deadlock = true
@@ -353,7 +403,7 @@ func main() {
 			r.Missed = append(r.Missed, "deadlock verdict differs from expectation "+p.want)
 		}
 		r.Wall = time.Since(t0).Seconds()
-		fmt.Printf("%-34s naive execs=%-7d outcomes=%-4d | dpor execs=%-5d blocked=%-4d outcomes=%-4d | deadlock=%-5v agree=%v\n", r.Name, r.NaiveExecs, r.NaiveOutcomes, r.DporExecs, r.DporBlocked, r.DporOutcomes, r.Deadlock, r.Agree)
+		fmt.Printf("%-34s plain=%-7d(%v) naive execs=%-7d outcomes=%-4d | dpor execs=%-5d blocked=%-4d outcomes=%-4d | deadlock=%-5v agree=%v\n", r.Name, r.PlainExecs, r.PlainClosed, r.NaiveExecs, r.NaiveOutcomes, r.DporExecs, r.DporBlocked, r.DporOutcomes, r.Deadlock, r.Agree)
 		for _, m := range r.Missed {
 			fmt.Println("    MISSED by DPOR:", m)
 		}
